@@ -56,7 +56,7 @@ CLAIMED["C16"] = ("property-based testing (Hypothesis): span-manager scripts aga
          "DESIGN.md section 5 / C16")
 CLAIMED["C03"] = ("property-based testing (Hypothesis) + exhaustive enumeration: generated programs under many collection schedules (metamorphic), steady-state object counts over request histories, the real collector driven through a scripted heap against a reachability model",
          "Exploration, with an exhaustive sub-check: every heap with <= 3 nodes (4 in thorough) x every handle configuration x every single further operation is checked against reachability; random op sequences up to 40 ops; 9+ schedules per generated program must agree on outcome and stack trace; object counts must be stable after warm-up.",
-         "Uses hooks H1 (schedule override, counters) and H2 (scripted heap over the real GcContext); the reachability model is 20 lines of Python/Rust; memoised standard-library thunks are allowed as warm-up growth.",
+         "Uses hooks H1 (schedule override, counters), H2 (scripted heap over the real GcContext) and H4 (a collection reports any object visited by more in-heap handles than exist, i.e. a handle traced twice); a handle that is never traced shows as a permanent leak of a cycle through it (steady-state sources contain one garbage cycle per kind of heap edge, pending and evaluated); the reachability model is 20 lines of Python/Rust; memoised standard-library thunks are allowed as warm-up growth.",
          "DESIGN.md section 5 / C03")
 CLAIMED["C11"] = ("property-based testing (Hypothesis): generated request histories on one long-lived Program vs replay of each request's own dependency chain on a fresh Program (differential against the implementation itself on a fresh state)",
          "Exploration: histories of load/eval/re-eval/call/manifest/gc/set_max_stack over sources sharing a lazily evaluated ext-var and a cached import, with explicit errors, assertion failures, type errors and stack overflows interleaved; outcomes (text; error variant, message, spans, stack) must match the fresh state.",
